@@ -452,12 +452,11 @@ impl Vfs {
         }
         let index = self.allocate_fs_idx().map_err(VfsError::FsIndex)?;
         // Store per-mount id_mapping before insert_mount_locked so that
-        // convert_entry during insertion can use it.
-        if id_mapping.is_some() {
-            let mut mappings = self.mount_id_mappings.load().deref().deref().clone();
-            mappings[index as usize] = id_mapping;
-            self.mount_id_mappings.store(Arc::new(mappings));
-        }
+        // convert_entry during insertion can use it. Store it even if it is None: the slot
+        // may still hold the mapping of an earlier mount that was over-mounted.
+        let mut mappings = self.mount_id_mappings.load().deref().deref().clone();
+        mappings[index as usize] = id_mapping;
+        self.mount_id_mappings.store(Arc::new(mappings));
         self.insert_mount_locked(fs, entry, index, path)
             .map_err(VfsError::Mount)?;
 
